@@ -349,6 +349,75 @@ func inlineOverlay(dir string, known map[string]bool, namedOnly bool) map[string
 		if len(helpers) == 0 && len(litHelpers) == 0 && len(closureVars) == 0 {
 			break
 		}
+		if round == 0 && namedOnly {
+			// a known function that has fewer function literals than before and references a new
+			// function nobody else references: that function took over a closure's body and is
+			// left as it is (the rules see a call, as they did when it was a closure)
+			refBy := map[types.Object]map[string]bool{}
+			for _, f := range p.Syntax {
+				for _, d := range f.Decls {
+					fd, ok := d.(*ast.FuncDecl)
+					if !ok || fd.Body == nil {
+						continue
+					}
+					ast.Inspect(fd.Body, func(n ast.Node) bool {
+						if id, ok := n.(*ast.Ident); ok {
+							if fn, ok := p.TypesInfo.Uses[id].(*types.Func); ok && helpers[fn] != nil {
+								if refBy[fn] == nil {
+									refBy[fn] = map[string]bool{}
+								}
+								refBy[fn][declName(fd)] = true
+							}
+						}
+						return true
+					})
+				}
+			}
+			lost := map[string]int{}
+			for _, f := range p.Syntax {
+				for _, d := range f.Decls {
+					if fd, ok := d.(*ast.FuncDecl); ok && fd.Body != nil && known[declName(fd)] {
+						if n := knownStreamsClosures[declName(fd)] - countFuncLits(fd.Body); n > 0 {
+							lost[declName(fd)] = n
+						}
+					}
+				}
+			}
+			cands := map[string][]*helperInfo{}
+			for fn, h := range helpers {
+				by := refBy[fn]
+				delete(by, h.name) // self reference (recursion)
+				if len(by) == 1 {
+					for caller := range by {
+						if lost[caller] > 0 {
+							cands[caller] = append(cands[caller], h)
+						}
+					}
+				}
+			}
+			for caller, hs := range cands {
+				n := lost[caller]
+				var open []*helperInfo
+				for _, h := range hs {
+					if h.why != "" {
+						n-- // cannot be expanded anyway: it accounts for one of the lost closures
+					} else {
+						open = append(open, h)
+					}
+				}
+				if n > 0 && len(open) <= n {
+					for _, h := range open {
+						h.why = "stands for a closure of " + caller
+					}
+				}
+			}
+			for _, h := range helpers {
+				if h.why != "" {
+					info.Skipped = append(info.Skipped, declName(h.decl)+": "+h.why)
+				}
+			}
+			sort.Strings(info.Skipped)
+		}
 		if round == 0 && !namedOnly {
 			// a known function that lost its only closure and now calls exactly one new function,
 			// which nobody else references: that function stands for the closure
